@@ -3,7 +3,7 @@
 import json
 props=[json.loads(l)['id'] for l in open('/verif/properties.jsonl')]
 claimed={
- "C01": ("implicit obligations (bounds, nil, type assertion, explicit panic) on every symbolic path of every G-driver (all entry points x seed corpus x all layouts x all cursors) and of the generated Copy() kernels; a satisfiable obligation is replayed natively through the public API before it is reported",),
+ "C01": ("implicit obligations (bounds, nil, type assertion, explicit panic) on every symbolic path of every G-driver (all entry points x seed corpus x all layouts x all cursors) and of the generated Copy() kernels; a path that exhausts its step budget is a non-termination candidate, confirmed only if the native replay does not return within its deadline either; a satisfiable obligation is replayed natively through the public API before it is reported",),
  "C02": ("every range in every result of every G-driver is asserted to be a real (line, column, byte) position of the stretched file in the right file with start<=end; decided by the solver over all layouts/cursors of each seed",),
  "C03": ("comparator lemmas (irreflexive, asymmetric) for the sort comparators over symbolic keys",),
  "C04": ("write-set analysis on every path of every G-driver: no value-changing store/map update/append/copy into any cell that existed before the query (schema, files, bytes, targets, functions) or into package-level state",),
